@@ -1578,8 +1578,8 @@ impl<'a> Runtime<'a> {
         val
     }
 
-    /// Overwrites a variable slot, returning the old value's pool slot
-    /// before promoting the new value.
+    /// Overwrites a variable slot: promotes the new value, then returns the
+    /// old value's pool slot.
     fn overwrite_slot(
         slot: &mut Value<'a>,
         val: Value<'a>,
@@ -1588,9 +1588,11 @@ impl<'a> Runtime<'a> {
         frame: &Arena,
     ) {
         if has_frame {
-            let old = mem::replace(slot, Value::Null);
+            // Promote first: `val` may still borrow the bytes of the slot's current string
+            // (`x get x`), so the old slot must stay allocated until the copy is made.
+            let new = val.promote(pool, frame);
+            let old = mem::replace(slot, new);
             unsafe { old.return_to_pool(pool) };
-            *slot = val.promote(pool, frame);
         } else {
             *slot = val;
         }
